@@ -1,14 +1,25 @@
 #!/bin/bash
-# tools/seed_apply_check.sh <patch.diff> <check-id>...   applies a seeded change to /repo, runs the quick checks, undoes it.
+# tools/seed_apply_check.sh <patch.diff> <check-id>...   applies a seeded change, runs the quick checks, undoes it.
+# Default: the change is applied to a scratch worktree of /repo (/tmp/mut/seedwt) and the checks build from there
+# (VERIF_REPO), so that checks running against /repo at the same time are not disturbed.  SEED_IN_REPO=1 applies it to
+# /repo itself (git -C /repo apply; ...; git -C /repo checkout -- .) - only when nothing else is running.
 P=$1; shift
 cd /verif
 rm -rf /verif/build/evidence.bak; cp -r /verif/evidence /verif/build/evidence.bak
-git -C /repo apply "$P" || { echo "PATCH DOES NOT APPLY"; exit 3; }
+if [ "${SEED_IN_REPO:-0}" = 1 ]; then
+  R=/repo
+else
+  R=/tmp/mut/seedwt
+  [ -d $R ] || git -C /repo worktree add --detach $R HEAD >/dev/null 2>&1
+  git -C $R checkout -q --detach $(git -C /repo rev-parse HEAD) && git -C $R checkout -- . && git -C $R clean -fdq
+  export VERIF_REPO=$R
+fi
+git -C $R apply "$P" || { echo "PATCH DOES NOT APPLY"; exit 3; }
 for id in "$@"; do
   echo "=== $id"
   timeout ${SEED_TIMEOUT:-900} bin/check $id --tier ${SEED_TIER:-quick} 2>&1 | grep -E "VIOLATION|KNOWN-FINDING|ENGINE-ERROR|signature" | cut -c1-300 | head -${SEED_LINES:-4}
   echo "rc=${PIPESTATUS[0]}"
 done
-git -C /repo checkout -- .
+git -C $R checkout -- .
 cp /verif/build/evidence.bak/*.json /verif/evidence/ 2>/dev/null
-git -C /repo status --short | grep -v _build
+git -C $R status --short | grep -v _build
